@@ -395,6 +395,12 @@ def r12_11(run, model):
     run.floor("markers followed through the grammar", n, 40)
 
 
+def r12_12(run, model, mir):
+    from rules import c20
+    from lib.panics import Graph
+    c20.r20_1(run, model, mir, Graph(mir))
+
+
 def run(run, model):
     mir = Mir(run.facts)
     run.try_rule(r12_1, model)
@@ -412,6 +418,8 @@ def run(run, model):
     run.try_rule(r12_11, model)
     # positions attached to diagnostics lie in the text they refer to: errors of a non-entry file (shared with C04 R04.18)
     run.try_rule(c04.r04_18, model)
+    # parsing terminates normally on every input: the panic sites reachable from parser::parse are ledgered (shared with C20 R20.1)
+    run.try_rule(r12_12, model, mir)
     # R12.3: no entropy in lexer / parser
     run.rule("R12.3", "lexing and parsing are deterministic: no hash-ordered iteration and no entropy source in the lexer/parser/cst/ast crates")
     bad = [c for c in mir.calls if c["file"].startswith(("crates/lexer/src", "crates/parser/src")) and re.search(r"std::collections::Hash(Map|Set)|RandomState|SystemTime|Instant::now|std::env::", c["callee"])]
